@@ -434,7 +434,7 @@ def main(run, replay=None):
         cases = [json.load(open(replay))["case"]]
     else:
         if corpus_f.exists():
-            corpus = json.load(open(corpus_f))[:16]
+            corpus = json.load(open(corpus_f))
         cases += [gen_case(rng, run.tier) for _ in range(n)]
 
     # the corpus runs first, one fresh interpreter per case
